@@ -3,9 +3,9 @@
 package verifx
 
 import (
+	"fmt"
 	"os"
 	"strings"
-	"fmt"
 	"time"
 )
 
